@@ -3,6 +3,7 @@ package main
 import (
 	"encoding/json"
 	"os"
+	"path/filepath"
 	"regexp"
 	"strconv"
 	"strings"
@@ -66,6 +67,12 @@ type Corpus struct {
 
 var corpus Corpus
 
+// corpusProjects are whole projects (root + types + rules) written by hand for this
+// purpose (corpus/projects.jsonl): combinations of language features that are
+// accepted far enough to reach the code behind them, which random composition of
+// single texts rarely produces.
+var corpusProjects []Project
+
 func loadCorpus(path string) {
 	b, err := os.ReadFile(path)
 	if err != nil {
@@ -73,6 +80,27 @@ func loadCorpus(path string) {
 	}
 	if err := json.Unmarshal(b, &corpus); err != nil {
 		fatalExit("corpus: " + err.Error())
+	}
+	if pb, err := os.ReadFile(filepath.Join(filepath.Dir(path), "projects.jsonl")); err == nil {
+		for _, line := range strings.Split(string(pb), "\n") {
+			if strings.TrimSpace(line) == "" {
+				continue
+			}
+			var cp struct {
+				Root  string     `json:"root"`
+				Types []TypeSpec `json:"types"`
+				Rules []RuleSpec `json:"rules"`
+			}
+			if json.Unmarshal([]byte(line), &cp) != nil || cp.Root == "" {
+				continue
+			}
+			for i := range cp.Types {
+				if cp.Types[i].Kind != "r" {
+					cp.Types[i].Kind = "j"
+				}
+			}
+			corpusProjects = append(corpusProjects, Project{Kind: "jschema", Name: "root", Text: cp.Root, Types: cp.Types, Rules: cp.Rules})
+		}
 	}
 	// a few hand-written entries aimed at the places where nondeterminism lives
 	corpus.Guess = append(corpus.Guess, `"a.b"`, `"1.5"`, `"1e2"`, `"-0"`, `1.0`, `1e2`, `"true"`, `"null"`, `12.`, `"12"`)
@@ -903,6 +931,29 @@ func genProject(r *rng, tornPct int) Project {
 	}
 	if (r.focus == "" || r.focus == "jschema") && r.pct(3) {
 		return genWide(r)
+	}
+	if len(corpusProjects) > 0 && (r.focus == "" || r.focus == "jschema") && r.pct(14) {
+		p := corpusProjects[r.n(len(corpusProjects))]
+		p.Types = append([]TypeSpec(nil), p.Types...)
+		p.Rules = append([]RuleSpec(nil), p.Rules...)
+		p.Name = []string{"root", "schema.jst", "x"}[r.n(3)]
+		switch {
+		case len(p.Types) > 0 && r.pct(10):
+			i := r.n(len(p.Types)) // one of its types is not registered
+			p.Types = append(p.Types[:i:i], p.Types[i+1:]...)
+		case len(p.Types) > 1 && r.pct(10):
+			i, j := r.n(len(p.Types)), r.n(len(p.Types)) // two types swap their texts
+			p.Types[i].Text, p.Types[j].Text = p.Types[j].Text, p.Types[i].Text
+			p.Types[i].Kind, p.Types[j].Kind = p.Types[j].Kind, p.Types[i].Kind
+		case r.pct(10):
+			p.Text = mutateText(r, p.Text)
+		case r.pct(8):
+			p.Text = relayout(r, p.Text)
+		}
+		if tornPct > 0 && r.pct(tornPct) {
+			p.Text, p.Torn = tear(r, p.Text)
+		}
+		return p
 	}
 	var p Project
 	switch c := r.n(100); {
